@@ -589,7 +589,8 @@ class Gen:
         n = self.n()
         if not self.p.weird_renames:
             return f"rn{n}"
-        return self.r.choice([f"rn{n}", f"rn-{n}", f"{n}rn", f"rn {n}", f"$rn{n}", f"rn_{n}", f"Rn{n}", f"rn.{n}"])
+        return self.r.choice([f"rn{n}", f"rn-{n}", f"{n}rn", f"rn {n}", f"$rn{n}", f"rn_{n}", f"Rn{n}", f"rn.{n}",
+                              f'rn"{n}', f"rn\\{n}", f"rn'{n}", f"r\u00e9n{n}"])
 
     # -- types ------------------------------------------------------------------------------
     def leaf(self, for_c02=True):
@@ -931,6 +932,11 @@ class Gen:
                                                    untagged=unt))
         if it.kind in ("newtype", "tuple"):
             it.kind = "newtype" if len(it.fields) == 1 else "tuple"
+        if self.p.generics and it.kind == "named" and "M" not in it.params and self.r.random() < 0.07:
+            # a marker parameter: no exported field mentions it, but the type's name does (`Id<User>`)
+            it.params.insert(0, "M")
+            it.fields.append(Field(self.field_name(), Ty("raw", "std::marker::PhantomData<M>"), skip=True))
+            it.tags.append("k:phantom-parameter")
         it.recursive = it.recursive or any(f.ty.has("self") for f in it.all_fields()) or any(d.recursive for d in it.deps())
         if self.p.p_macro and any(True for _ in it.all_fields()) and self.r.random() < self.p.p_macro:
             # (built-in derives such as Clone refuse items with macros in type position)
